@@ -59,6 +59,9 @@ type Exec struct {
 	topStar bool
 	ghostSorts map[string]string
 	entryAlloc Term
+	boxInfo map[string]boxed
+	curCall *ssa.CallCommon
+	curFrame *frame
 	pcMu sync.Mutex
 	noQuick bool
 	assumeSeen map[string]bool
@@ -1019,4 +1022,9 @@ func loopFollow(li *loopInfo) *ssa.BasicBlock {
 		}
 	}
 	return li.follow
+}
+
+type boxed struct {
+	v Value
+	t types.Type
 }
